@@ -155,6 +155,13 @@ class C09(Spec):
                         # nothing about the finite stimulus
                         tree['in'].update(rolloff=1, pass_att=1, stop_att=80)
                 yield {'kind': 'finite', 'cls': top, 'tree': tree, 'chunks': history(tree, S.total_of(tree)), 'tag': 'var'}
+        # item 9: optional constructor arguments left out (start_time, transform, window, normalization, carrier options):
+        # the contract is the one of the documented defaults
+        for top in TOPS + ['fixedlike']:
+            for _ in range(20 if quick else 100):
+                fs = rng.choice(S.FS_LIST)
+                tree = G.defaults_tree(rng, finite_tree(rng, fs, top))
+                yield {'kind': 'finite', 'cls': top, 'tree': tree, 'chunks': history(tree, S.total_of(tree)), 'tag': 'dflt'}
         # items 5, 6: reset and re-use (before any draw, mid-way, after completion, twice), get_samples_remaining(),
         # NumPy integer chunk sizes, the caller overwriting the chunks it received
         for top in TOPS + ['fixedlike']:
